@@ -76,9 +76,60 @@ def compare_masters(ctx, case, fonts, sig=None, sparse=None, sig_glyphs=None):
     return ok
 
 
+def ligamark_family(rng, lib):
+    """two full masters + a sparse layer that holds only a mark-ligature composite (acutecomb_gravecomb), not the marks it is
+    made of; propagateAnchors (lib filter) must find the composite's lowest mark component through the glyph set being
+    processed (fixed finding F16: defcon's Component.bounds looked in the sparse layer and returned None)"""
+    from fontTools.designspaceLib import SourceDescriptor
+    def master(k):
+        dx = 30 * k
+        marks = []
+        for n, u, yo in (("acutecomb", 0x301, 0), ("gravecomb", 0x300, 10)):
+            marks.append({"name": n, "unicodes": [u], "width": Fr(0), "components": [],
+                          "contours": [[(Fr(0), Fr(500 + yo), "line"), (Fr(50 + dx), Fr(500 + yo), "line"), (Fr(25), Fr(600 + yo + dx), "line")]],
+                          "anchors": [("_top", Fr(25), Fr(480)), ("top", Fr(25), Fr(620 + dx))]})
+        comp = {"name": "acutecomb_gravecomb", "unicodes": [], "width": Fr(0), "contours": [], "anchors": [],
+                "components": [("acutecomb", (Fr(1), Fr(0), Fr(0), Fr(1), Fr(0), Fr(0))),
+                               ("gravecomb", (Fr(1), Fr(0), Fr(0), Fr(1), Fr(rng.randint(-20, 20)), Fr(150 + dx)))]}
+        base = {"name": "a", "unicodes": [0x61], "width": Fr(500 + dx), "components": [], "anchors": [("top", Fr(250), Fr(520 + dx))],
+                "contours": [[(Fr(50), Fr(0), "line"), (Fr(450 + dx), Fr(0), "line"), (Fr(250), Fr(500 + dx), "line")]]}
+        gl = [base] + marks + [comp]
+        return {"glyphs": gl, "glyphOrder": [g["name"] for g in gl], "kerning": {}, "groups": {},
+                "lib": {"com.github.googlei18n.ufo2ft.filters": [{"name": "propagateAnchors", "pre": True}],
+                        "public.openTypeCategories": {"acutecomb": "mark", "gravecomb": "mark", "acutecomb_gravecomb": "mark", "a": "base"}},
+                "info": {"familyName": "Fam", "styleName": "Master%d" % k, "unitsPerEm": 1000, "ascender": 800, "descender": -200}}
+    masters = [master(0), master(1)]
+    ds, fonts = dsgen.make_designspace(rng, masters, lib)
+    layer = fonts[0].newLayer("mid")
+    gl = layer.newGlyph("acutecomb_gravecomb")
+    gl.width = 0
+    pen = gl.getPointPen()
+    pen.addComponent("acutecomb", (1, 0, 0, 1, 0, 0))
+    pen.addComponent("gravecomb", (1, 0, 0, 1, 5, 170))
+    sd = SourceDescriptor()
+    sd.font, sd.layerName, sd.location, sd.name = fonts[0], "mid", {"Weight": 500}, "master.mid"
+    sd.familyName, sd.styleName = "Fam", "Mid"
+    ds.sources.insert(1, sd)
+    return ds, fonts, masters
+
+
 def explore(ctx):
     import ufo2ft
     from ufo2ft.errors import InvalidFontData
+    rng = ctx.subrng("ligamark")
+    for i in range(ctx.budget(4, 12)):
+        lib = ["defcon", "ufoLib2"][i % 2]
+        fn = ["compileInterpolatableTTFsFromDS", "compileInterpolatableOTFsFromDS"][(i // 2) % 2]
+        ds, fonts, masters = ligamark_family(rng, lib)
+        case = {"function": fn, "variant": "sparse layer holding only a mark-ligature composite + propagateAnchors", "lib": lib,
+                "font": jsonable(masters[0]), "last_master": jsonable(masters[-1])}
+        ctx.count(); ctx.klass("%s/sparse-ligamark" % fn); ctx.nontriv(("ligamark", i, ctx.scale))
+        try:
+            out = [s.font for s in getattr(ufo2ft, fn)(ds).sources]
+        except Exception as e:
+            ctx.spec_failure(case, "%s raised %s: %s\n%s" % (fn, type(e).__name__, e, traceback.format_exc()[-1000:]))
+            continue
+        compare_masters(ctx, case, out, sparse=(1, ["acutecomb_gravecomb"]))
     rng = ctx.subrng("families")
     for i in range(ctx.budget(36, 240)):
         lib = ["ufoLib2", "defcon"][i % 2]
